@@ -24,7 +24,8 @@ def run(rep, tier, seed):
     rep.level = "exploration"
     rep.assume("A1", "A2", "A4", "A5", "A6", "A8")
     D.run_contracts(rep, "C03", D.FIT, tier, with_lemmas=False)
-    D.run_contracts(rep, "C03", [("contracts.bincompletion", "bin_completion")], tier)
+    from contracts import bincompletion as BC
+    D.run_contracts(rep, "C03", [("contracts.bincompletion", "bin_completion")] + BC.HELPERS, tier)
     D.run_static(rep, "C03", ("purity",))      # every per-call contract presupposes that results are functions of the arguments
     t3(rep, tier, seed)
     D.link_falsifier(rep)
